@@ -387,6 +387,41 @@ def check(res, tier):
                 res.violation("ffi:%s:%s" % (cfg.name(), hash(src) % 10 ** 8), why,
                               {"files": {"main.ddp": src, "ext.c": csrc}, "program": src, "expected_stdout": exp, "config": cfg.name(), "implementation": r.as_dict(),
                                "signatures": [[f[0], [list(p) for p in f[1]], f[2]] for f in fns]})
+    # calls of foreign functions inside the arguments of a call of a foreign function: the caller's copies of the outer call's
+    # earlier value arguments stay alive (and their own) while the inner call makes and releases its copies — the nested form
+    # against the same calls made one after the other through variables
+    for code in [c for c in TYPES if c not in PRIM and c != "V"]:
+        idx += 2
+        inner, outer = "ext_fn%d" % (idx - 1), "ext_fn%d" % idx
+        nsrc, ncsrc, _ = build_case(model, [(inner, [("p0", code, False)], code, [0]), (outer, [("p0", code, False), ("p1", code, False)], "N", [0, 0])])
+        prefix = nsrc[:nsrc.index(GLOBALS) + len(GLOBALS)]
+        art = {"T": "Der", "S:Punkt": "Der"}.get(code, "Die")
+        tn, lit = TYPES[code][0], TYPES[code][3]
+        decls = "%s %s na ist %s.\n%s %s nb ist %s.\n" % (art, tn, lit, art, tn, lit)
+        nested = decls + "%s na (%s nb).\n%s (%s na) (%s nb).\n%s (%s na) nb.\n" % (outer, inner, outer, inner, inner, outer, inner)
+        seq = decls + ("%s %s z1 ist %s nb.\n%s na z1.\n%s %s z2 ist %s na.\n%s %s z3 ist %s nb.\n%s z2 z3.\n%s %s z4 ist %s na.\n%s z4 nb.\n"
+                       % (art, tn, inner, outer, art, tn, inner, art, tn, inner, outer, art, tn, inner, outer))
+        for cfg in sys_cfgs:
+            rn = pipeline.compile_run(ddp, {"main.ddp": prefix + nested, "ext.c": ncsrc}, cfg, extra_c=["ext.c"], timeout=20)
+            rs = pipeline.compile_run(ddp, {"main.ddp": prefix + seq, "ext.c": ncsrc}, cfg, extra_c=["ext.c"], timeout=20)
+            res.evaluations += 2
+            st["nested:%s:%s" % (cfg.name(), rn.cls)] += 1
+            if rs.cls != "ok":
+                continue        # the sequential form is what the other cases are about
+            res.nontrivial("nested-foreign-calls:%s:%s" % (code, cfg.name()))
+            why = None
+            if rn.cls != "ok":
+                why = "ended as %s: %s" % (rn.cls, (rn.stderr or rn.compile_out)[-300:])
+            elif rn.stdout != rs.stdout:
+                why = "the C functions see other values than with the same calls made one after the other: %r against %r" % (rn.stdout[-200:], rs.stdout[-200:])
+            elif cfg.ledger:
+                vs = [l for l in (rn.ledger or "").split("\n") if l.startswith("V ")]
+                if not vs or vs[-1] != "V ok 0":
+                    why = "heap ledger verdict %r" % (vs[-1] if vs else "missing")
+            if why and len(res.violations) < 6:
+                res.violation("ffi-nested:%s:%s" % (code, cfg.name()), "a foreign call inside the arguments of a foreign call (%s, %s): %s" % (TYPES[code][0], cfg.name(), why),
+                              {"files": {"main.ddp": prefix + nested, "ext.c": ncsrc}, "program": prefix + nested, "sequential_program": prefix + seq,
+                               "config": cfg.name(), "implementation": rn.as_dict(), "sequential": rs.as_dict()})
     evalcorr.report_broken(res, broken)
     res.extra.update({"programs": len(cases), "functions": idx, "configs": [c.name() for c in cfgs], "statistics": dict(sorted(st.items()))})
     res.rule = ("random foreign signatures (1-3 parameters of 14 kinds incl. lists of every primitive element type, value or Referenz, 14 result kinds "
